@@ -846,6 +846,8 @@ def run(ctx: Ctx):
     ctx.assumptions += ["SortedSet bisects with __lt__ and iterates in sort order", "pyannote Segment is a frozen dataclass ordered by (start, end)"]
     rule_unit_order(ctx)
     rule_who_may_write(ctx)
+    from .common import check_class_state
+    check_class_state(ctx, "R-C13-2", judge=True)
     rule_add(ctx)
     rule_copy(ctx)
     rule_merge(ctx)
